@@ -313,3 +313,143 @@ def prunedDoc (p : Prog) (storing : Bool) (d : Doc) : Doc :=
   if p 0 (.cifStart storing) = CONTINUE then dBlocks p storing d 1 else []
 
 end CifModel.Spec.Doc
+
+/-
+  Part 4 (C15, stop semantics of the store) — ANY handler program: besides continuing and skipping a handler may answer
+  CIF_TRAVERSE_END or an error code (anything that is not one of the three directives), which ends the parse at once.
+  `cutDoc p d` runs the program over the document tree as part 3 does (the only state is the number of handler callbacks
+  delivered) and returns what the store holds when the parse ends: the document with the bypassed sub-trees removed AND cut at
+  the stopping point — everything stored before the stop stays, nothing after it is stored — together with the stopping answer.
+  What happens to the construct in progress (read off parser.c, restated here):
+    * stop at a scalar item: the item is not stored;
+    * stop at loop_start: the loop is not created; at packet_start / at an item of a packet / at packet_end: the open packet is
+      not recorded, the loop stays with the packets recorded before — also when there are none (see the next point);
+      at loop_end: the loop stays as it is;
+    * stop at block / frame start: the block / frame has been created and stays, empty; inside the body: it stays with what was
+      stored so far; at block / frame end: it is complete;
+    * `cif_container_prune` (removal of packet-less loops) runs when a container reaches its end with CIF_OK, just before its
+      end handler.  The containers that are open at the stopping point never get there: they KEEP their packet-less loops.
+      Closed containers have lost theirs: `stripL`.  So the stored CIF is the plain denotation `denote (cutDoc …).kept`.
+    * no block_end / frame_end / loop_end / cif_end callback is delivered for the constructs open at the stopping point.
+  Return value of cif_parse: the stopping answer if positive, CIF_OK otherwise (END and the other non-positive answers);
+  without a stop: the answer of cif_end if positive, else CIF_OK (`cutResult`).
+-/
+namespace CifModel.Spec.Doc
+open CifModel.ParseCB
+
+/-- the answer ends the parse: `some r` unless `r` is one of the three traversal directives -/
+def stopOf (r : Int) : Option Int :=
+  if r = CONTINUE then none else if r = SKIP_CURRENT then none else if r = SKIP_SIBLINGS then none else some r
+
+/-- outcome of running the program over a construct -/
+structure Cut (α : Type) where
+  n : Nat             -- handler callbacks delivered so far
+  kept : α            -- what the store holds of the construct
+  sib : Bool          -- the following siblings are bypassed (SKIP_SIBLINGS)
+  stop : Option Int   -- the answer that ended the parse, if one did
+
+/-- `cif_container_prune`: the loops without packets go -/
+def stripL (es : List Elem) : List Elem :=
+  es.filter (fun e => match e with | .loop _ [] => false | _ => true)
+
+def cItems (p : Prog) : List (Str × V) → Nat → Cut Unit
+  | [], n => ⟨n, (), false, none⟩
+  | (nm, v) :: is, n =>
+    if p n (.item nm v) = CONTINUE then cItems p is (n + 1)
+    else if p n (.item nm v) = SKIP_CURRENT then cItems p is (n + 1)
+    else if p n (.item nm v) = SKIP_SIBLINGS then ⟨n + 1, (), true, none⟩
+    else ⟨n + 1, (), false, some (p n (.item nm v))⟩
+
+/-- one packet; `kept` = it is recorded -/
+def cPacket (p : Prog) (names : List Str) (pk : List V) (n : Nat) : Cut Bool :=
+  if p n .pktStart = CONTINUE then
+    let it := cItems p (List.zip names pk) (n + 1)
+    if it.stop.isSome then ⟨it.n, false, false, it.stop⟩
+    else if it.sib then ⟨it.n, false, false, none⟩
+    else ⟨it.n + 1, decide (p it.n (.pktEnd (List.zip names pk)) = CONTINUE),
+          decide (p it.n (.pktEnd (List.zip names pk)) = SKIP_SIBLINGS), stopOf (p it.n (.pktEnd (List.zip names pk)))⟩
+  else if p n .pktStart = SKIP_CURRENT then ⟨n + 1, false, false, none⟩
+  else if p n .pktStart = SKIP_SIBLINGS then ⟨n + 1, false, true, none⟩
+  else ⟨n + 1, false, false, some (p n .pktStart)⟩
+
+/-- the packets of a loop; `kept` = the recorded ones; `sib` = the loop was bypassed from inside -/
+def cPackets (p : Prog) (names : List Str) : List (List V) → Nat → Cut (List (List V))
+  | [], n => ⟨n, [], false, none⟩
+  | pk :: pks, n =>
+    let r := cPacket p names pk n
+    if r.stop.isSome then ⟨r.n, [], false, r.stop⟩
+    else if r.sib then ⟨r.n, if r.kept then [pk] else [], true, none⟩
+    else
+      let rest := cPackets p names pks r.n
+      ⟨rest.n, (if r.kept then [pk] else []) ++ rest.kept, rest.sib, rest.stop⟩
+
+def cLoop (p : Prog) (storing : Bool) (names : List Str) (pks : List (List V)) (n : Nat) : Cut (List Elem) :=
+  if p n (.loopStart names) = CONTINUE then
+    let b := cPackets p names pks (n + 1)
+    if b.stop.isSome then ⟨b.n, [.loop names b.kept], false, b.stop⟩
+    else if b.sib then ⟨b.n, [.loop names b.kept], false, none⟩
+    else ⟨b.n + 1, [.loop names b.kept], decide (p b.n (.loopEnd (if storing then some names else none)) = SKIP_SIBLINGS),
+          stopOf (p b.n (.loopEnd (if storing then some names else none)))⟩
+  else if p n (.loopStart names) = SKIP_CURRENT then ⟨n + 1, [], false, none⟩
+  else if p n (.loopStart names) = SKIP_SIBLINGS then ⟨n + 1, [], true, none⟩
+  else ⟨n + 1, [], false, some (p n (.loopStart names))⟩
+
+mutual
+  def cElem (p : Prog) (storing : Bool) : Elem → Nat → Cut (List Elem)
+    | .item nm v, n =>
+      ⟨n + 1, if p n (.item nm v) = CONTINUE then [.item nm v] else [], decide (p n (.item nm v) = SKIP_SIBLINGS),
+       stopOf (p n (.item nm v))⟩
+    | .loop names pks, n => cLoop p storing names pks n
+    | .frame code body, n =>
+      let h := if storing then some code else none
+      if p n (.frameStart h) = CONTINUE then
+        let b := cElems p storing body (n + 1)
+        if b.stop.isSome then ⟨b.n, [.frame code b.kept], false, b.stop⟩             -- open: keeps its packet-less loops
+        else ⟨b.n + 1, [.frame code (stripL b.kept)], decide (p b.n (.frameEnd h) = SKIP_SIBLINGS), stopOf (p b.n (.frameEnd h))⟩
+      else if p n (.frameStart h) = SKIP_CURRENT then
+        ⟨n + 2, [.frame code []], decide (p (n + 1) (.frameEnd h) = SKIP_SIBLINGS), stopOf (p (n + 1) (.frameEnd h))⟩
+      else if p n (.frameStart h) = SKIP_SIBLINGS then ⟨n + 1, [.frame code []], true, none⟩
+      else ⟨n + 1, [.frame code []], false, some (p n (.frameStart h))⟩
+  /-- the elements of a container body until one asks to skip its siblings or ends the parse -/
+  def cElems (p : Prog) (storing : Bool) : List Elem → Nat → Cut (List Elem)
+    | [], n => ⟨n, [], false, none⟩
+    | e :: es, n =>
+      let r := cElem p storing e n
+      if r.stop.isSome then ⟨r.n, r.kept, false, r.stop⟩
+      else if r.sib then ⟨r.n, r.kept, false, none⟩
+      else ⟨(cElems p storing es r.n).n, r.kept ++ (cElems p storing es r.n).kept, false, (cElems p storing es r.n).stop⟩
+end
+
+def cBlock (p : Prog) (storing : Bool) (b : Block) (n : Nat) : Cut Block :=
+  let h := if storing then some b.code else none
+  if p n (.blockStart h) = CONTINUE then
+    let r := cElems p storing b.body (n + 1)
+    if r.stop.isSome then ⟨r.n, { code := b.code, body := r.kept }, false, r.stop⟩
+    else ⟨r.n + 1, { code := b.code, body := stripL r.kept }, decide (p r.n (.blockEnd h) = SKIP_SIBLINGS), stopOf (p r.n (.blockEnd h))⟩
+  else if p n (.blockStart h) = SKIP_CURRENT then
+    ⟨n + 2, { code := b.code, body := [] }, decide (p (n + 1) (.blockEnd h) = SKIP_SIBLINGS), stopOf (p (n + 1) (.blockEnd h))⟩
+  else if p n (.blockStart h) = SKIP_SIBLINGS then ⟨n + 1, { code := b.code, body := [] }, true, none⟩
+  else ⟨n + 1, { code := b.code, body := [] }, false, some (p n (.blockStart h))⟩
+
+def cBlocks (p : Prog) (storing : Bool) : List Block → Nat → Cut (List Block)
+  | [], n => ⟨n, [], false, none⟩
+  | b :: bs, n =>
+    let r := cBlock p storing b n
+    if r.stop.isSome then ⟨r.n, [r.kept], false, r.stop⟩
+    else if r.sib then ⟨r.n, [r.kept], false, none⟩
+    else ⟨(cBlocks p storing bs r.n).n, r.kept :: (cBlocks p storing bs r.n).kept, false, (cBlocks p storing bs r.n).stop⟩
+
+/-- the document as the store holds it when the parse ends, and the answer that ended it -/
+def cutDoc (p : Prog) (storing : Bool) (d : Doc) : Cut Doc :=
+  if p 0 (.cifStart storing) = CONTINUE then cBlocks p storing d 1
+  else if p 0 (.cifStart storing) = SKIP_CURRENT then ⟨1, [], false, none⟩
+  else if p 0 (.cifStart storing) = SKIP_SIBLINGS then ⟨1, [], false, none⟩
+  else ⟨1, [], false, some (p 0 (.cifStart storing))⟩
+
+/-- the return value of cif_parse -/
+def cutResult (p : Prog) (storing : Bool) (c : Cut Doc) : Int :=
+  match c.stop with
+  | some r => if r > OK then r else OK
+  | none => if p c.n (.cifEnd storing) > OK then p c.n (.cifEnd storing) else OK
+
+end CifModel.Spec.Doc
